@@ -88,8 +88,8 @@ type plan struct {
 	authOn    bool
 	users     []user
 	validUser int
-	origin    string   // authority of the first forwarded request
-	oHost     string   // host part
+	origin    string // authority of the first forwarded request
+	oHost     string // host part
 	oPort     uint16
 	reqs      []*reqSpec
 	faulty    bool
